@@ -1,0 +1,23 @@
+//go:build verif
+
+package app
+
+// Add-only hook for the verification harness of property C06 (/verif), second file: splitPeriod
+// with a start time and a start number in the configuration. Thin exported wrapper, no change of
+// behaviour. Only compiled with -tags verif.
+
+import (
+	m "github.com/Eyevinn/dash-mpd/mpd"
+)
+
+// VerifC06SplitPeriodCfg calls splitPeriod on mpd with an asset that only carries SegmentDurMS and
+// a configuration that carries the periods-per-hour value, the MPD type flags, the continuity
+// flag, the start time and the start number (nil: not set); wtStartTimeMS/nowMS are the two
+// wrapTimes fields splitPeriod reads.
+func VerifC06SplitPeriodCfg(mpd *m.MPD, segmentDurMS int, periodsPerHour *int, segTimeline, segTimelineNr, continuous bool,
+	startTimeS int, startNr *int, wtStartTimeMS, nowMS int) error {
+	a := &asset{SegmentDurMS: segmentDurMS}
+	cfg := &ResponseConfig{PeriodsPerHour: periodsPerHour, SegTimelineFlag: segTimeline,
+		SegTimelineNrFlag: segTimelineNr, ContMultiPeriodFlag: continuous, StartTimeS: startTimeS, StartNr: startNr}
+	return splitPeriod(mpd, a, cfg, wrapTimes{startTimeMS: wtStartTimeMS, nowMS: nowMS})
+}
